@@ -487,10 +487,10 @@ def _prop_repl(case, stats):
 
 
 def run(h):
-    h.run_given(repl_cases, _prop_repl, h.n(40, 2500), shards=16, name="repl-sessions")
+    h.run_given(repl_cases, _prop_repl, h.n(40, 1000), shards=16, name="repl-sessions")
     h.run_enum(onchain_histories(4 if h.quick else 6), _prop_onchain, shards=16)
     h.run_enum(warm_histories(), _prop_onchain, shards=4)
-    h.run_given(lambda: cases((2, 10) if h.quick else (2, 25)), _prop, h.n(60, 5000), shards=16)
-    h.run_given(lambda: st.data(), _prop_free, h.n(150, 8000), shards=16, name="free")
+    h.run_given(lambda: cases((2, 10) if h.quick else (2, 25)), _prop, h.n(60, 1500), shards=16)
+    h.run_given(lambda: st.data(), _prop_free, h.n(150, 3000), shards=16, name="free")
     if h.stats.extra.get("generator_illtyped", 0) > 0.05 * max(1, h.stats.evaluations):
         raise Inconclusive("too many ill-typed programs generated")
